@@ -62,6 +62,15 @@ def branch(draw, name, npar_key, horizon, n_in=1):
             if kind != "sum":
                 flags.add("stateful")
         body.append(node)
+    if draw(st.integers(0, 4)) == 0:
+        # the first node's ONLY input is a list / bundle assembled structurally from the branch's arguments: at a key change it
+        # must be run for the held arguments although none of its slots is a peered one
+        k_ = len(xs)
+        schema_ = f"TSL[TS[int],{k_}]" if draw(st.booleans()) else "TSB[" + ",".join(f"f{q}:TS[int]" for q in range(k_)) + "]"
+        body.insert(0, {"id": "st", "op": "struct", "schema": schema_, "ins": list(xs)})
+        body[1]["ins"] = ["st"]
+        body[1]["coef"] = [1]
+        flags.add("structural_input")
     names = (["key"] if npar_key else []) + ["x", "y"][:n_in]
     ret = f"b{n - 1}"
     if draw(st.integers(0, 3)) == 0:
